@@ -1,4 +1,6 @@
 import Qryn.Proofs.Faults
+import Qryn.Proofs.PreRequest
+import Qryn.Ingest.PreChains
 /-! # C05 — no request body can crash or wedge the ingest side
 
 Property theorems only. Model: `Qryn.Ingest.Faults` — `ingest : Route → Doc → Outcome` over the decoded
@@ -269,5 +271,366 @@ example : ingest .zipkinJson ⟨.plain, .zipkin [.span .ok .ok 2 40] false⟩ = 
 example : ingest .lokiJson ⟨.gzipOk, .lokiJson [⟨.pairs 2, [.good true false 5, .good true true 7]⟩] false⟩ = .status 204 := by
   decide
 example : ingest .promWrite ⟨.plain, .promWrite true [3, 2]⟩ = .status 204 := by decide
+
+/-! ## The pre-request chain (middleware.go): Content-Encoding, `withUnsnappyRequest`, buffering — and what it
+    makes the runtime allocate
+
+Model: `Qryn.Ingest.PreRequest` (`PreRequest.preRequest L kind contentEncoding body`), third-party calls as the
+parameter `L : Lib β` (snappy block API with its documented contract `Lib.Lawful`, gzip / snappy-framing readers
+as uninterpreted streams). The order of calls and guards in `withUnsnappyRequest`, its limit, the
+Content-Encoding cases and the `io.ReadAll` inventory are `Gen.PreRequest`, regenerated from the source. -/
+
+section PreRequest
+open Qryn.PreRequest
+open Qryn.Gen.PreRequest (unsnappyLimit unsnappyOrder contentEncodingCases contentEncodingDefault readAllSites)
+
+/-- T: the generated order of `withUnsnappyRequest` is one the model understands, and it is the guarded one:
+    `DecodedLen`, the comparison of the *declared* length with the limit, and only then `Decode` -/
+theorem unsnappy_order_recognised :
+    stepsOf unsnappyLimit unsnappyOrder = some [.decodedLen, .limitDeclared unsnappyLimit, .decode] := by decide
+
+theorem unsnappy_steps : genSteps = [.decodedLen, .limitDeclared unsnappyLimit, .decode] := by
+  simp [genSteps, unsnappy_order_recognised]
+
+/-- T: the code as generated obeys the guard discipline (`decode` only after the declared length was compared) -/
+theorem unsnappy_guarded : guardedBy unsnappyLimit genSteps false false = true ∧ countDecode genSteps = 1 := by
+  rw [unsnappy_steps]; decide
+
+/-- T: every Content-Encoding case does something the model knows -/
+theorem encoding_actions_known :
+    ∀ p ∈ contentEncodingCases, p.2 ∈ ["identity", "gzip.NewReader", "snappy.NewReader"] := by decide
+
+/-- T: the inventory of `io.ReadAll` call sites of the ingest side is the one that was reviewed: two pre-request
+    steps drain `r.Body` (the socket bytes, or the gzip / snappy-framing stream over them), three parsers drain
+    their reader. A new site (or a site draining something else — the extractor then fails closed) needs a look
+    at what bounds it. -/
+theorem readall_inventory_pinned :
+    readAllSites.map (fun s => (s.1, s.2.1, s.2.2.1)) =
+      [("writer/controller/middleware.go", "withUnsnappyRequest", "r.Body"),
+       ("writer/controller/tempoController.go", "OTLPPushV2", "r.Body"),
+       ("writer/utils/unmarshal/binaryPprof.go", "binaryStreamPProfProtoDec.Decode", "b.ctx.bodyReader"),
+       ("writer/utils/unmarshal/builder.go", "withBufferedBody", "ctx.bodyReader"),
+       ("writer/utils/unmarshal/golangPprof.go", "pProfProtoDec.Decode", "p.ctx.bodyReader")] := by decide
+
+/-- **prerequest_total.** For every library behaviour, kind of route, `Content-Encoding` value and body the
+    chain ends in exactly one of: status 400 (precisely when the header value is not one of the listed cases),
+    status 500 (gzip header refused, or the decompression stream broke while a pre-request step buffered it),
+    or the parser is started. Nothing else can happen — in particular no action of the switch is unknown to the
+    model (status 0) and an oversized or corrupt snappy block never rejects the request by itself. -/
+theorem prerequest_total {β : Type} (L : Lib β) (k : Kind) (ce : String) (body : β) :
+    ((preRequest L k ce body).outcome = .reject 400 ∧ contentEncodingCases.lookup ce = none) ∨
+      ((preRequest L k ce body).outcome = .reject 500 ∧ contentEncodingCases.lookup ce ≠ none) ∨
+      (∃ s src, (preRequest L k ce body).outcome = .parser s src ∧ contentEncodingCases.lookup ce ≠ none) := by
+  unfold preRequest preRequestWith contentEncoding
+  have hc : contentEncodingCases = [("", "identity"), ("gzip", "gzip.NewReader"), ("snappy", "snappy.NewReader")] := rfl
+  have hd : contentEncodingDefault = 400 := rfl
+  rw [hc, hd]
+  by_cases h1 : ce = ""
+  · subst h1
+    cases k <;> simp [List.lookup, readAll]
+  · by_cases h2 : ce = "gzip"
+    · subst h2
+      cases hz : L.gzipHeaderOk body <;> cases k <;> simp [List.lookup, readAll] <;>
+        cases (L.gunzip body).eof <;> simp
+    · by_cases h3 : ce = "snappy"
+      · subst h3
+        cases k <;> simp [List.lookup, readAll] <;> cases (L.unframe body).eof <;> simp
+      · have hl : List.lookup ce [("", "identity"), ("gzip", "gzip.NewReader"), ("snappy", "snappy.NewReader")] = none := by
+          have e1 : (ce == "") = false := by simp [h1]
+          have e2 : (ce == "gzip") = false := by simp [h2]
+          have e3 : (ce == "snappy") = false := by simp [h3]
+          simp [List.lookup, e1, e2, e3]
+        simp [hl]
+
+/-- **unsnappy_passthrough_or_decoded.** What `withUnsnappyRequest` hands to the parser is either the bytes it
+    read, unchanged, or their snappy decoding as returned by the library — for every order of the steps
+    (so also for the code as generated). -/
+theorem unsnappy_passthrough_or_decoded_any {β : Type} (L : Lib β) (steps : List Step) (c : β) :
+    ((unsnappyWith L steps c).decoded = false ∧ (unsnappyWith L steps c).body = c) ∨
+      ((unsnappyWith L steps c).decoded = true ∧ L.decode c = .ok (unsnappyWith L steps c).body) := by
+  have hs := runClosure_sound L c steps {} (sound_init L c)
+  unfold unsnappyWith
+  cases hf : (runClosure L c steps {}).failed with
+  | some e => left; simp [hf]
+  | none =>
+    cases ho : (runClosure L c steps {}).out with
+    | none => left; simp [hf, ho]
+    | some u => right; simp [hf, ho]; exact hs.out u ho
+
+theorem unsnappy_passthrough_or_decoded {β : Type} (L : Lib β) (c : β) :
+    ((unsnappy L c).decoded = false ∧ (unsnappy L c).body = c) ∨
+      ((unsnappy L c).decoded = true ∧ L.decode c = .ok (unsnappy L c).body) :=
+  unsnappy_passthrough_or_decoded_any L genSteps c
+
+/-- **guarded_alloc_bounded.** Any arrangement of the closure that obeys the guard discipline (every `Decode`
+    after a comparison of the declared length with a limit `≤ limit`) allocates at most `limit` per `Decode`,
+    whatever the library returns — and a decoded body is at most `limit` long (library contract). -/
+theorem guarded_alloc_bounded {β : Type} (L : Lib β) (limit : Nat) (steps : List Step) (c : β)
+    (hg : guardedBy limit steps false false = true) :
+    (unsnappyWith L steps c).alloc ≤ limit * countDecode steps ∧
+      (L.Lawful → (unsnappyWith L steps c).decoded = true → L.len (unsnappyWith L steps c).body ≤ limit) := by
+  obtain ⟨ha, ho⟩ := runClosure_guarded L c limit steps false false {} hg (sound_init L c) (guard_init limit)
+    (outOk_init L c limit)
+  have hs := runClosure_sound L c steps {} (sound_init L c)
+  have halloc : (unsnappyWith L steps c).alloc = (runClosure L c steps {}).alloc := by
+    unfold unsnappyWith
+    cases hf : (runClosure L c steps {}).failed <;> cases hout : (runClosure L c steps {}).out <;> simp [hf, hout]
+  refine ⟨by rw [halloc]; simpa using ha, ?_⟩
+  intro hl hdec
+  unfold unsnappyWith at hdec ⊢
+  cases hf : (runClosure L c steps {}).failed with
+  | some e => simp [hf] at hdec
+  | none =>
+    cases hout : (runClosure L c steps {}).out with
+    | none => simp [hf, hout] at hdec
+    | some u =>
+      simp only [hf, hout]
+      obtain ⟨n, hn, hle⟩ := ho u hout
+      have := hl.decode_len c u (hs.out u hout)
+      rw [hn] at this
+      cases this
+      exact hle
+
+/-- **unsnappy_alloc_bounded.** `withUnsnappyRequest` as it is in the source: for every body and every
+    behaviour of the snappy library, `snappy.Decode` is made to allocate at most the limit (10 MiB) — the length
+    *declared* in the block header never reaches `make` unchecked — and a decoded body is at most that long. -/
+theorem unsnappy_alloc_bounded {β : Type} (L : Lib β) (c : β) :
+    (unsnappy L c).alloc ≤ unsnappyLimit ∧
+      (L.Lawful → (unsnappy L c).decoded = true → L.len (unsnappy L c).body ≤ unsnappyLimit) := by
+  have h := guarded_alloc_bounded L unsnappyLimit genSteps c unsnappy_guarded.1
+  rw [unsnappy_guarded.2, Nat.mul_one] at h
+  exact h
+
+/-- the whole chain of an unsnappy route (Prometheus remote write, Loki protobuf push): the buffers the
+    middleware asks for are bounded by the bytes the (possibly decompressed) request stream yields, plus the
+    limit, plus the fixed framing buffers — never by a number written in the request. -/
+theorem prerequest_alloc_bounded {β : Type} (L : Lib β) (k : Kind) (ce : String) (body : β) :
+    (∀ st, contentEncoding L ce body = .error st → (preRequest L k ce body).alloc = 0) ∧
+      (∀ s, contentEncoding L ce body = .ok s →
+        (preRequest L k ce body).alloc ≤ snappyReaderBufs + L.len s.data + unsnappyLimit) := by
+  constructor
+  · intro st h; simp [preRequest, preRequestWith, h]
+  · intro s h
+    have he : encodingAlloc ce ≤ snappyReaderBufs := by
+      unfold encodingAlloc; split <;> simp
+    unfold preRequest preRequestWith
+    simp only [h]
+    cases k with
+    | streamed => simp only; omega
+    | buffered =>
+      unfold readAll
+      cases s.eof <;> simp only [if_true, if_false, Bool.false_eq_true] <;> omega
+    | unsnappy =>
+      unfold readAll
+      cases heof : s.eof
+      · simp only [if_false, Bool.false_eq_true]; omega
+      · simp only [if_true]
+        have := (unsnappy_alloc_bounded L s.data).1
+        unfold unsnappy at this
+        omega
+
+/-- without Content-Encoding: allocation ≤ len(body) + 10 MiB, and this is inside the rule the allocation
+    oracle of the check judges on the real process (`64 MiB + 2048 × len(body)`): the model's bound and the
+    oracle's rule are tied through the generated constant -/
+theorem unsnappy_alloc_within_rule {β : Type} (L : Lib β) (k : Kind) (body : β) :
+    (preRequest L k "" body).alloc ≤ L.len body + unsnappyLimit ∧
+      L.len body + unsnappyLimit + unsnappyLimit ≤ 64 * 1024 * 1024 + 2048 * L.len body := by
+  have hce : contentEncoding L "" body = .ok ⟨body, true⟩ := by
+    unfold contentEncoding
+    have hc : contentEncodingCases = [("", "identity"), ("gzip", "gzip.NewReader"), ("snappy", "snappy.NewReader")] := rfl
+    rw [hc]; simp [List.lookup]
+  have hz : encodingAlloc "" = 0 := by
+    unfold encodingAlloc
+    have hc : contentEncodingCases = [("", "identity"), ("gzip", "gzip.NewReader"), ("snappy", "snappy.NewReader")] := rfl
+    rw [hc]; simp [List.lookup]
+  have hlim : unsnappyLimit = 10485760 := rfl
+  refine ⟨?_, by omega⟩
+  unfold preRequest preRequestWith
+  simp only [hce, hz]
+  cases k with
+  | streamed => simp only; omega
+  | buffered => simp [readAll]
+  | unsnappy =>
+    simp only [readAll, if_true]
+    have := (unsnappy_alloc_bounded L body).1
+    unfold unsnappy at this
+    omega
+
+/-! ### The allocation rule over every Content-Encoding — PARTIAL (finding `C05/alloc-amplification/decompressed-stream/*`)
+
+The oracle of the check judges `alloc ≤ 64 MiB + 2048 × len(body)` on the real process. In the model the rule
+holds for the chain's own buffers as long as the decompression stream expands the body at most 1032-fold (the
+maximum of DEFLATE) — but only because of that property of the *codec*: the chain itself puts no cap on the
+decompressed size (it buffers whatever the stream yields, `decompressed_stream_buffered_whole`), while the snappy
+*block* path has its 10 MiB guard and the pprof decoders their `maxUncompressedSizeBytes`. On the real process
+the buffered bytes are paid several times (`io.ReadAll` with amortised growth in the pre-request step, again in
+the parser's `withBufferedBody`): a 16 KiB gzip body yielding 16 MiB costs ≈ 196 MiB of allocations — the
+oracle reports it (KNOWN_FINDINGS.txt). -/
+
+/-- the rule for every encoding and every behaviour of the stream readers -/
+def alloc_within_rule_full : Prop :=
+  ∀ {β : Type} (L : Lib β) (k : Kind) (ce : String) (body : β),
+    (preRequest L k ce body).alloc ≤ 64 * 1024 * 1024 + 2048 * L.len body
+
+/-- **alloc_within_rule_partial.** If the stream the Content-Encoding reader yields is at most 1032 times as long
+    as the body (true of gzip; snappy framing expands far less; trivially true without encoding), the buffers of
+    the pre-request chain stay within the oracle's rule. -/
+theorem alloc_within_rule_partial {β : Type} (L : Lib β) (k : Kind) (ce : String) (body : β)
+    (hratio : ∀ s, contentEncoding L ce body = .ok s → L.len s.data ≤ 1032 * L.len body) :
+    (preRequest L k ce body).alloc ≤ 64 * 1024 * 1024 + 2048 * L.len body := by
+  have h := prerequest_alloc_bounded L k ce body
+  have hlim : unsnappyLimit = 10485760 := rfl
+  have hb : snappyReaderBufs = 142030 := rfl
+  cases hce : contentEncoding L ce body with
+  | error st => rw [h.1 st hce]; exact Nat.zero_le _
+  | ok s =>
+    have h1 := h.2 s hce
+    have h2 := hratio s hce
+    omega
+
+/-- the chain buffers the whole decompressed stream: nothing but the codec bounds it -/
+theorem decompressed_stream_buffered_whole {β : Type} (L : Lib β) (k : Kind) (ce : String) (body : β)
+    (s : Stream β) (hk : k ≠ .streamed) (hce : contentEncoding L ce body = .ok s) :
+    L.len s.data ≤ (preRequest L k ce body).alloc := by
+  unfold preRequest preRequestWith
+  simp only [hce]
+  cases k with
+  | streamed => exact absurd rfl hk
+  | buffered => unfold readAll; cases s.eof <;> simp only [if_true, if_false, Bool.false_eq_true] <;> omega
+  | unsnappy => unfold readAll; cases s.eof <;> simp only [if_true, if_false, Bool.false_eq_true] <;> omega
+
+/-- buffers that are nothing but their length, and a stream reader that expands 4096-fold -/
+def expandingLib : Lib Nat where
+  len := id
+  decodedLen := fun _ => .error .corrupt
+  decode := fun _ => .error .corrupt
+  gzipHeaderOk := fun _ => true
+  gunzip := fun n => ⟨4096 * n, true⟩
+  unframe := fun n => ⟨n, true⟩
+
+/-- without the codec's ratio the rule does not follow from anything the chain does: a 64 KiB body under a
+    4096-fold expansion is buffered whole (256 MiB) -/
+theorem alloc_within_rule_counterexample : ¬ alloc_within_rule_full := by
+  intro h
+  have := h expandingLib .buffered "gzip" 65536
+  revert this
+  decide
+
+/-- the statement `unsnappy_alloc_bounded` would be for another arrangement of the closure -/
+def alloc_bounded_for (steps : List Step) : Prop :=
+  ∀ (L : Lib Bytes), L.Lawful → ∀ c : Bytes,
+    (preRequestWith L steps .unsnappy "" c).alloc ≤ L.len c + unsnappyLimit
+
+theorem headerOnlyLib_lawful : headerOnlyLib.Lawful :=
+  ⟨fun b u h => (by simp only [headerOnlyLib] at h; split at h <;> cases h),
+   fun b e h => (by simp only [headerOnlyLib] at h ⊢; rw [h])⟩
+
+theorem alloc_bounded_as_generated : alloc_bounded_for genSteps := by
+  intro L _ c
+  exact (unsnappy_alloc_within_rule L .unsnappy c).1
+
+/-- **what the guard is for.** With `snappy.Decode` first and the size check on its *result* afterwards
+    (`len(uncompressed) > limit`), the bound fails: a body of five bytes — nothing but a block header declaring
+    4 GiB − 1 — makes `Decode` allocate 4 294 967 295 bytes before it finds the block corrupt, and the size
+    check is never reached. (The library here is the real header parser, `binary.Uvarint` +
+    `snappy.decodedLen`, with every block body corrupt.) -/
+theorem guard_after_decode_counterexample :
+    ¬ alloc_bounded_for [.decode, .limitDecoded unsnappyLimit] := by
+  intro h
+  have := h headerOnlyLib headerOnlyLib_lawful [0xff, 0xff, 0xff, 0xff, 0x0f]
+  revert this
+  decide
+
+/-- the same for a guard that compares `len(compressed)` — the wrong quantity — before decoding -/
+theorem guard_on_compressed_counterexample :
+    ¬ alloc_bounded_for [.decodedLen, .limitCompressed unsnappyLimit, .decode] := by
+  intro h
+  have := h headerOnlyLib headerOnlyLib_lawful [0x80, 0x80, 0x80, 0x80, 0x04, 0x08, 0x61, 0x62, 0x63]
+  revert this
+  decide
+
+/-- the nine bytes of the seeded demo declare 1 GiB; the code as generated does not let that reach `make` -/
+example : (preRequestWith headerOnlyLib [.decode, .limitDecoded unsnappyLimit] .unsnappy ""
+    [0x80, 0x80, 0x80, 0x80, 0x04, 0x08, 0x61, 0x62, 0x63]).alloc = 9 + 1073741824 := by decide
+example : (preRequest headerOnlyLib .unsnappy "" [0x80, 0x80, 0x80, 0x80, 0x04, 0x08, 0x61, 0x62, 0x63]).alloc = 9 := by
+  rw [preRequest, unsnappy_steps]; decide
+
+/-- non-vacuity: lawful libraries that do decode exist (the identity codec), and then the decoded branch is taken -/
+def idLib : Lib Bytes where
+  len := List.length
+  decodedLen := fun b => .ok b.length
+  decode := fun b => .ok b
+  gzipHeaderOk := fun _ => true
+  gunzip := fun b => ⟨b, true⟩
+  unframe := fun b => ⟨b, true⟩
+
+example : idLib.Lawful := ⟨fun b u h => (by cases h; rfl), fun b e h => (by cases h)⟩
+example : (unsnappyWith idLib [.decodedLen, .limitDeclared 10, .decode] [1, 2, 3]).decoded = true := by decide
+example : (unsnappyWith idLib [.decodedLen, .limitDeclared 2, .decode] [1, 2, 3]).decoded = false := by decide
+example : (unsnappyWith idLib [.decodedLen, .limitDeclared 2, .decode] [1, 2, 3]).alloc = 0 := by decide
+
+end PreRequest
+
+/-! ## The request context of the handlers: no failed type assertion in the handler goroutine
+
+Model: `Qryn.Ingest.PreChains`; facts: `Gen.PreChains` (which keys each middleware asserts / stores, what `doParse`
+reads, `cfg.ExtraMiddleware`, the option list of every handler constructor). -/
+
+section PreChains
+open Qryn.PreChains
+open Qryn.Gen.PreChains (middlewares handlers extraMiddlewareDefault extraMiddlewareTempo)
+
+/-- T: the hand-placed context operations of every named middleware agree with the source: the same bare
+    assertions (key and type, in order) and the same stored keys -/
+theorem middleware_ctx_facts_tied :
+    middlewares.all (fun m =>
+      match opsOfMiddleware m.1 with
+      | none => false
+      | some ops =>
+        decide (ops.filterMap Op.asserted = m.2.1.map (fun a => (a.1, tyOf a.2))) &&
+          decide (ops.filterMap Op.stored = m.2.2.eraseDups)) = true := by decide
+
+/-- T: every chain of every handler constructor passes the static check -/
+theorem handler_chains_checked : allHandlersSafe = true := by decide
+
+/-- **handler_chains_no_fault.** For every ingest handler as it is built in the source, both values of
+    `cfg.ExtraMiddleware`, every parser the Content-Type can select and every combination of steps that return an
+    error: no bare type assertion on a context value fails — `dsn.(string)` finds the string stored by
+    `WithOverallContextMiddleware`, `Value("node").(string)` the node name stored by the service middleware of
+    the route. The handler goroutine therefore ends in a status (`ErrorHandler`) or reaches the parser; it does
+    not panic on the way, whatever the request. -/
+theorem handler_chains_no_fault :
+    ∀ h ∈ handlers, ∀ extra ∈ [extraMiddlewareDefault, extraMiddlewareTempo], ∀ p ∈ h.2.2,
+      ∃ ops, chainOps extra h.2.1 p = some ops ∧ ∀ fails, exec ops fails [] ≠ .fault := by
+  intro h hh extra he p hp
+  have hall := handler_chains_checked
+  unfold allHandlersSafe at hall
+  have h1 := (List.all_eq_true.mp hall) h hh
+  have h2 := (List.all_eq_true.mp h1) extra he
+  simp only [Bool.and_eq_true] at h2
+  have h3 := (List.all_eq_true.mp h2.2) p hp
+  cases hc : chainOps extra h.2.1 p with
+  | none => simp [hc] at h3
+  | some ops =>
+    refine ⟨ops, rfl, ?_⟩
+    simp only [hc] at h3
+    exact safe_sound ops [] h3
+
+/-- what the order is for: the service middleware without `WithOverallContextMiddleware` before it panics on
+    `dsn.(string)`; a chain without a service middleware panics in `doParse` on `Value("node").(string)` -/
+theorem chain_without_overall_faults :
+    ∃ ops, chainOps [] [("cfg.ExtraMiddleware", []), ("withTSAndSampleService", [])] ("*", []) = some ops ∧
+      exec ops [] [] = .fault := ⟨_, rfl, by decide⟩
+
+theorem chain_without_service_faults :
+    ∃ ops, chainOps extraMiddlewareDefault [("cfg.ExtraMiddleware", [])] ("*", []) = some ops ∧
+      exec ops [] [] = .fault := ⟨_, rfl, by decide⟩
+
+/-- non-vacuity: the chains are not empty, and a chain can end in a rejection as well as reach the parser -/
+example : handlers.length = 12 := by decide
+example : ∃ ops, chainOps extraMiddlewareDefault [("cfg.ExtraMiddleware", []), ("withTSAndSampleService", [])] ("*", []) = some ops ∧
+    exec ops [true] [] = .rejected ∧ (∃ c, exec ops [] [] = .completed c) := ⟨_, rfl, by decide, ⟨_, rfl⟩⟩
+
+end PreChains
 
 end Qryn.C05
